@@ -145,7 +145,7 @@ func TestC38(t *testing.T) {
 			})
 		}
 		enum.Strings(alpha, maxLen, func(b []byte) { check(string(b), true) })
-		for _, v := range []string{"bifrost/floodsub", "bifrost/solicit", "x", "héllo/世界", "a\u0000b", "\ufeff", "\U0010ffff", "\xed\xa0\x80", "\xf4\x90\x80\x80", "\xc0\xaf"} {
+		for _, v := range []string{"bifrost/floodsub", "bifrost/solicit", "x", "héllo/世界", "a\u0000b", "\ufeff", "\ufffd", "\ufffc", "\ufffe", "a\ufffd", "bifrost/\ufffd/1", "\xef\xbf", "\U0010ffff", "\xed\xa0\x80", "\xf4\x90\x80\x80", "\xc0\xaf"} {
 			check(v, false)
 		}
 		// lists
